@@ -46,6 +46,8 @@ def random_user_alphabets(rng):
     del miss[rng.choice(common.AA)]
     out.append(("missing-key", miss))
     out.append(("value-not-amino-acid", dict(base, **{rng.choice(common.AA): rng.choice(["X", "B", "Z", "1", "LL"])})))
+    out.append(("value-two-letters", dict(base, **{rng.choice(common.AA): rng.choice(["DE", "ST", "NQ", "ILM", "FWY", "KD", "AI"])})))
+    out.append(("value-empty", dict(base, **{rng.choice(common.AA): ""})))
     out.append(("lower-case-value", dict(base, **{rng.choice(common.AA): "l"})))
     out.append(("non-string-value", dict(base, **{rng.choice(common.AA): 5})))
     out.append(("lower-case-keys-only", {a.lower(): "L" for a in common.AA}))
@@ -96,10 +98,16 @@ def run(ctx):
             whole = reduce_call(lc.SP(all20), size)
             if whole[0] != "ok" or whole[1] != "".join(m[r] for r in all20):
                 ctx.violation("reduce-not-residue-by-residue", {"size": size, "seq": all20}, expected="".join(m[r] for r in all20), actual=whole)
-    for size in list(range(0, 26)) + ["8", "7", -2]:
+    import numpy as np
+    for size in list(range(0, 26)) + ["8", "7", -2, "0", np.int64(0), np.int64(10), np.int64(7), 0.0, 12.0, 13.0]:
         out = reduce_call(lc.SP("ACDKLW"), size)
         ctx.evaluations += 1
         ev.append({"q": "alphabetsize", "size": int(size), "exc": out[0] != "ok"})
+    for size in (None, "", "abc"):
+        out = reduce_call(lc.SP("ACDKLW"), size)
+        ctx.evaluations += 1
+        if out[0] == "ok":
+            ctx.violation("alphabet-size-acceptance", {"size": repr(size)}, expected="rejected", actual=out)
     tid += 1
     trs.append({"tid": tid, "seq": list(all20), "ev": ev})
     # (V)
